@@ -1323,7 +1323,8 @@ class C07(Prop):
                 import shutil
                 shutil.copy(os.path.join(core.REPO, "Cargo.lock"), lock_dst)
             env = {"CARGO_NET_OFFLINE": "true", "RUSTFLAGS": "--cfg boreal_verif"}
-            rc, out = core.sh(["cargo", "build", "--offline", "--quiet"], cwd=HY, timeout=1500, env=env)
+            rc, out = core.cargo_build(["cargo", "build", "--offline", "--quiet"], HY, "debug",
+                                       ("boreal", "boreal-parser", "bvy"), timeout=1500, env=env)
             return rc == 0, out, os.path.join(HY, "target", "debug")
 
     def probe_modules(self):
